@@ -170,6 +170,10 @@ structure St where
   now : Int := 0
   out : List String := []          -- output lines, newest first
   announced : List Nat := []
+  -- ghost state (finding D12r): frames whose entry check has passed but that are not entered yet, and the flag
+  -- "a rear added an auxiliary to such a frame" (nothing in the model reads them, the driver reports the flag)
+  pending : List (Nat × String) := []
+  lateRear : Bool := false
   deriving Repr
 
 /-! ## heap and store helpers -/
@@ -920,7 +924,10 @@ def runAct (u : Nat) (fn : String) (c : Ctxt) (a : ActK) (s : St) : Except Err S
     | .put v p => .ok (s.write p v)
     | .inc p d => match s.read p with | none => .ok s | some v => .ok (s.write p (v + d))
     | .done => .ok (s.modCtl u (fun x => { x with done := true }))
-    | .rear m f => rear u fn m f s
+    | .rear m f =>
+      -- ghost (finding D12r): a clone was made in a frame that is checked but not entered yet
+      (rear u fn m f s).map (fun s' =>
+        if s.pending.contains (u, f) && s'.nextUid != s.nextUid then { s' with lateRear := true } else s')
     | .raze w f => raze lo u w f s
 
 def runActs (u : Nat) (fn : String) (c : Ctxt) (acts : List ActK) (s : St) : Except Err St :=
@@ -1049,6 +1056,12 @@ def renter (u : Nat) (renters : List String) (s : St) : Except Err St :=
     | .error e => .error e
     | .ok f => runActs lo u fn .renter (f.acts .renter) s) renters s
 
+/-- ghost bracket (finding D12r): while `k` runs, the frames `p` count as checked-but-not-yet-entered -/
+def ghosted (p : List (Nat × String)) (k : St → Except Err St) (s : St) : Except Err St :=
+  match k { s with pending := s.pending ++ p } with
+  | .error e => .error e
+  | .ok s' => .ok { s' with pending := s.pending }
+
 /-- `Framer.activate(active)` -/
 def activate (u : Nat) (fn : String) (s : St) : Except Err St :=
   match s.frameOf u fn with
@@ -1065,7 +1078,7 @@ def enterAll (u : Nat) (s : St) : Except Err St :=
     | .ok s =>
       match s.fr u with
       | .error e => .error e
-      | .ok me => enter lo u me.ctl.actives s
+      | .ok me => ghosted (me.ctl.actives.map (fun f => (u, f))) (enter lo u me.ctl.actives) s
 
 /-- `Framer.exitAll(abort)` -/
 def exitAll (abort : Bool) (u : Nat) (s : St) : Except Err St :=
@@ -1105,6 +1118,19 @@ def checkStart (u : Nat) (claimed : List Nat) (s : St) : Except Err (Bool × Lis
     | .error e => .error e
     | .ok f => checkEnter lo u f.outline [] claimed s
 
+/-- the middle of `Transiter.action`: `framer.exit(exits); framer.rexit(reexens); framer.renter(reexens);
+framer.enter(enters)` -/
+def transitBody (u : Nat) (exits reexens enters : List String) (s : St) : Except Err St :=
+  match exit lo u exits s with
+  | .error e => .error e
+  | .ok s =>
+    match rexit lo u reexens s with
+    | .error e => .error e
+    | .ok s =>
+      match renter lo u reexens s with
+      | .error e => .error e
+      | .ok s => enter lo u enters s
+
 /-- `Transiter.action(needs, near, far)`; the Bool is the truthiness of the result -/
 def transit (u : Nat) (fn : String) (far : String) (needs : List Need) (s : St) : Except Err (Bool × St) :=
   match allM (needHolds u fn s) needs with
@@ -1120,18 +1146,10 @@ def transit (u : Nat) (fn : String) (far : String) (needs : List Need) (s : St) 
       | .error e => .error e
       | .ok (false, _) => .ok (false, s)
       | .ok (true, _) =>
-        match exit lo u exits s with
+        -- the entry check is over: from here to the end of `enter` the frames of `enters` are pending (ghost)
+        match ghosted (enters.map (fun f => (u, f))) (transitBody lo u exits reexens enters) s with
         | .error e => .error e
-        | .ok s =>
-          match rexit lo u reexens s with
-          | .error e => .error e
-          | .ok s =>
-            match renter lo u reexens s with
-            | .error e => .error e
-            | .ok s =>
-              match enter lo u enters s with
-              | .error e => .error e
-              | .ok s => (activate u far s).map (fun s => (true, s))
+        | .ok s => (activate u far s).map (fun s => (true, s))
 
 /-- `Frame.precur()` -/
 def precurLoop (u : Nat) (fn : String) : List Pre → St → Except Err (Bool × St)
